@@ -213,7 +213,11 @@ def _check_same_object(o, f0, solvers0, viol, what):
             viol.append((f"{what}:{a}-not-restored", "the identical object as before the save", "None" if cur is None else ("ABSENT" if isinstance(cur, str) else "a different object")))
 
 
-def _check_continue(o, order, queries, ref, viol, what):
+def _check_continue(o, order, queries, ref, viol, what, nq=None):
+    """nq: judge only the first nq queries (cheaper channels); ranks are always judged completely"""
+    if nq is not None:
+        queries = queries[:nq]
+        ref = dict(ref, accept=ref["accept"][:nq])
     try:
         c = _continue(o, order, queries)
     except Exception as e:  # noqa
@@ -487,7 +491,7 @@ def chan_impacts_invalid(spec, ranked, queries, params, tmp, ref):
         except Exception:  # noqa
             pass
         _check_same_object(o, f0, solvers0, viol, "impacts-invalid:object-after-refusal")
-        _check_continue(o, params["order"], queries, ref, viol, "impacts-invalid:object-after-refusal")
+        _check_continue(o, params["order"], queries, ref, viol, "impacts-invalid:object-after-refusal", nq=1)
     elif params["mode"] == "init":
         try:
             n = RandomMinCRepPreOCF.init_with_impacts_list(bb, bad)
@@ -507,7 +511,7 @@ def chan_impacts_invalid(spec, ranked, queries, params, tmp, ref):
         except Exception:  # noqa
             pass
         _check_same_object(o, f0, solvers0, viol, "impacts-invalid:object-after-refusal")
-        _check_continue(o, params["order"], queries, ref, viol, "impacts-invalid:object-after-refusal")
+        _check_continue(o, params["order"], queries, ref, viol, "impacts-invalid:object-after-refusal", nq=1)
     return viol
 
 
@@ -553,6 +557,8 @@ def chan_meta_file(spec, ranked, queries, params, tmp, ref):
     viol = []
     o = _build(spec)
     _rank(o, ranked)
+    for k, v in (params.get("extra_meta") or {}).items():
+        o.save_meta(k, json.loads(json.dumps(v)))
     if not _json_representable(o.metadata):
         raise RuntimeError("c20: generated metadata is not JSON-representable")
     f0 = _facets(o)
@@ -580,6 +586,8 @@ def chan_meta_file(spec, ranked, queries, params, tmp, ref):
 def prep_meta_fresh(spec, ranked, queries, params, tmp, ref, tag):
     viol = []
     o = _build(spec)
+    for k, v in (params.get("extra_meta") or {}).items():
+        o.save_meta(k, json.loads(json.dumps(v)))
     path = os.path.join(tmp, f"meta_fresh_{tag}" + params["suffix"])
     try:
         _meta_save(o, path, params)
@@ -727,7 +735,7 @@ def chan_fail_meta(spec, ranked, queries, params, tmp, ref):
     _check_same_object(o, f0, solvers0, viol, "fail-meta:object-after-failure")
     if o._metadata is not meta_obj or [(k, id(v)) for k, v in o._metadata.items()] != cells0:
         viol.append(("fail-meta:object-after-failure:metadata-changed", "same keys bound to the identical values", sorted(map(str, o._metadata))))
-    _check_continue(o, params["order"], queries, ref, viol, "fail-meta:object-after-failure")
+    _check_continue(o, params["order"], queries, ref, viol, "fail-meta:object-after-failure", nq=2)
     return viol, raised
 
 
@@ -737,7 +745,7 @@ def chan_fail_meta(spec, ranked, queries, params, tmp, ref):
 def _rnd_json(rng, depth):
     r = rng.random()
     if depth <= 0 or r < 0.45:
-        return rng.choice([None, True, False, 0, 1, -3, 2 ** 70, 1.5, -0.25, 1e-9, 1.0, "", "x", "1", "été ✓", "line\nbreak \"q\" \\"])
+        return rng.choice([None, True, False, 0, 1, -3, 2 ** 70, 1.5, -0.25, 1e-9, 1.0, 0.1 + 0.2, 1 / 3, 1e300, "", "x", "1", "été ✓", "line\nbreak \"q\" \\"])
     if r < 0.72:
         return [_rnd_json(rng, depth - 1) for _ in range(rng.randint(0, 3))]
     return {rng.choice(["k", "key two", "", "ä", "0", "None"]) + ("" if i == 0 else str(i)): _rnd_json(rng, depth - 1) for i in range(rng.randint(0, 3))}
@@ -915,10 +923,11 @@ def _plan(spec, states, rng, tier):
         for b in ("len+1", "len-1"):
             st = some()
             plan.append(("impacts-invalid", st, {"bad": b, "mode": "file", "order": _order(spec, st, 12)}))
+    extra = lambda: dict(_rnd_payload(rng), precise=rng.random() * 10 ** rng.randint(-5, 5), nested={"l": [1, [2.5, {"d": None}]], "t": True})  # noqa
     for v in META_VARIANTS:
-        plan.append(("meta-file", some(), dict(v, pathlib=rng.random() < 0.5)))
+        plan.append(("meta-file", some(), dict(v, pathlib=rng.random() < 0.5, extra_meta=extra())))
     for v in (META_VARIANTS[0], META_VARIANTS[1], META_VARIANTS[6]):
-        plan.append(("meta-fresh", [], dict(v)))
+        plan.append(("meta-fresh", [], dict(v, extra_meta=extra())))
     for how in FAIL_SAVE:
         st = some()
         plan.append(("fail-save", st, {"how": how, "pathlib": rng.random() < 0.5, "order": _order(spec, st, 13)}))
@@ -928,12 +937,12 @@ def _plan(spec, states, rng, tier):
     return plan
 
 
-def _nontrivial(spec, ranked, channel):
+def _nontrivial(spec, ranked, channel, params):
     lazy_kind = spec["kind"] != "custom"
     pending = lazy_kind and len(set(ranked)) < 2 ** len(spec["signature"])
     payload = bool(spec.get("metadata")) or spec["kind"] == "random_min_c_rep"
     if channel.startswith("meta"):
-        return bool(spec.get("metadata"))
+        return bool(spec.get("metadata")) or bool(params.get("extra_meta"))
     if channel.startswith("impacts"):
         return True
     return pending or payload
@@ -978,7 +987,7 @@ def _obj_case(item):
     with tempfile.TemporaryDirectory(prefix="c20_") as tmp:
         for channel, ranked, params, viols, note in _execute(spec, queries, _plan(spec, states, rng, tier), tmp, ref):
             out["evaluations"] += 1
-            if _nontrivial(spec, ranked, channel):
+            if _nontrivial(spec, ranked, channel, params):
                 pkey = _canon({k: v for k, v in params.items() if k not in ("order",)})
                 out["fingerprints"].append(hashlib.sha1(_canon([spec["kind"], content, sorted(ranked), channel, pkey]).encode()).hexdigest()[:16])
             for k, e, ob in viols:
